@@ -15,13 +15,27 @@ PACKAGES = {
 }
 
 
-def run(pkg, test, race=False, shards=(1, 16), timeout=(600, 3000)):
-    return {"pkg": pkg, "test": test, "race": race,
-            "shards": {"quick": shards[0], "thorough": shards[1]},
-            "timeout": {"quick": timeout[0], "thorough": timeout[1]}}
+def run(pkg, test, race=False, shards=(1, 16), timeout=(600, 3000), files=None):
+    r = {"pkg": pkg, "test": test, "race": race,
+         "shards": {"quick": shards[0], "thorough": shards[1]},
+         "timeout": {"quick": timeout[0], "thorough": timeout[1]}}
+    if files:
+        r["files"] = files   # prefixes of harness/<pkg>/*_test.go files compiled in (default: <id>, shared)
+    return r
 
 
+# Every property has an entry here so that its harness can be built and run with ./vcheck; only the
+# ids listed in manifest_meta.CLAIMED are registered in MANIFEST.json.
 PROPS = {
+    "C01": {"level": "exploration", "runs": [run("allocator", "TestVerif_C01", shards=(4, 16), files=["alloc", "shared"]),
+                                             run("controller", "TestVerif_C01", shards=(4, 16), files=["box", "shared"])]},
+    "C02": {"level": "exploration", "runs": [run("allocator", "TestVerif_C02", shards=(4, 16), files=["alloc", "shared"]),
+                                             run("controller", "TestVerif_C02", shards=(4, 16), files=["box", "shared"])]},
+    "C03": {"level": "exploration", "runs": [run("controller", "TestVerif_C03", shards=(4, 16), files=["box", "shared"])]},
+    "C04": {"level": "exploration", "runs": [run("speaker", "TestVerif_C04", shards=(4, 16), files=["c04", "direct", "shared"])]},
+    "C05": {"level": "exploration", "runs": [run("speaker", "TestVerif_C05", shards=(4, 16), files=["sbox", "shared"])]},
+    "C06": {"level": "fault_enumeration", "runs": [run("controller", "TestVerif_C06", shards=(4, 16), files=["box", "shared"])]},
+    "C07": {"level": "exploration", "runs": [run("controller", "TestVerif_C07", shards=(4, 16), files=["box", "shared"])]},
     "C08": {
         "level": "exploration",
         "runs": [run("config", "TestVerif_C08", shards=(4, 16))],
@@ -30,4 +44,19 @@ PROPS = {
         "assumptions": ["the oracle's reading of the address notations (netip parser, IPv4-mapped normalised to IPv4)",
                         "only accepted configurations are judged; over-rejection is never reported"],
     },
+    "C09": {"level": "exploration", "runs": [run("speaker", "TestVerif_C09", shards=(4, 16), files=["sbox", "shared"])]},
+    "C10": {"level": "exploration", "runs": [run("speaker", "TestVerif_C10", shards=(4, 16), files=["c10", "direct", "shared"])]},
+    "C11": {"level": "exploration", "runs": [run("allocator", "TestVerif_C11", shards=(4, 16), files=["alloc", "shared"]),
+                                             run("controller", "TestVerif_C11", shards=(4, 16), files=["box", "shared"])]},
+    "C12": {"level": "exploration", "runs": [run("speaker", "TestVerif_C12", shards=(4, 16), files=["c12", "direct", "shared"])]},
+    "C13": {"level": "exploration", "runs": [run("layer2", "TestVerif_C13", race=True, shards=(4, 16))]},
+    "C14": {"level": "translation_validation", "runs": [run("frr", "TestVerif_C14", shards=(4, 16), files=["c14", "frrinterp", "shared"])]},
+    "C15": {"level": "translation_validation", "runs": [run("frrk8s", "TestVerif_C15", shards=(4, 16))]},
+    "C16": {"level": "exploration", "runs": [run("native", "TestVerif_C16", shards=(4, 16), files=["c16", "rfc4271", "shared"])]},
+    "C17": {"level": "fault_enumeration", "runs": [run("native", "TestVerif_C17", race=True, shards=(4, 16), files=["c17", "rfc4271", "shared"])]},
+    "C18": {"level": "exploration", "runs": [run("controllers", "TestVerif_C18", shards=(4, 16))]},
+    "C19": {"level": "fault_enumeration", "runs": [run("frr", "TestVerif_C19", race=True, shards=(4, 16)),
+                                                   run("controllers", "TestVerif_C19", race=True, shards=(2, 8))]},
+    "C20": {"level": "exploration", "runs": [run("controller", "TestVerif_C20", race=True, shards=(2, 16), files=["c20", "box", "shared"]),
+                                             run("speaker", "TestVerif_C20", race=True, shards=(2, 16), files=["c20", "sbox", "shared"])]},
 }
